@@ -30,14 +30,14 @@ func init() {
 func (c17) ID() string { return "C17" }
 func (c17) Rule() string {
 	return "one child process per IO configuration (unrestricted, restricted, empty-only, each with load/save enabled or disabled; the configuration is fixed per process), with its working directory inside a scratch tree seeded with canary files " +
-		"(../outside.gr, sub/inner.gr, a.gr, .gr, x.txt, an absolute-path target), each holding a unique marker binding. EVERY name of length <=3 (thorough: <=5) over the symbols {a Z 1 _ . / \\ NUL space ~ 0xC3, the characters U+2030 U+2661 U+00E9, and .gr as one symbol}, with and without a final .gr, is passed to save() then load() and in the reverse order, twice. " +
+		"(../outside.gr, sub/inner.gr, a.gr, .gr, x.txt, an absolute-path target), each holding a unique marker binding. EVERY name of length <=3 (thorough: <=5) over the symbols {a Z 1 _ . / \\ NUL space ~ 0xC3, the characters U+2030 U+2661 U+00E9, and .gr as one symbol}, with and without a final .gr, is passed to save() then load() and in the reverse order, twice; so are names whose valid prefix is 15..250 bytes long followed by each forbidden continuation, with sub-directories of those names present. " +
 		"After every request that was not rejected — and after every 500 rejected ones — the whole tree is re-scanned (names, sizes, content hashes) and compared with the allowed set computed by the monitor's own predicate (letters/digits/underscore + .gr in the cwd; only ./.gr in empty-only mode; ./grol.png); " +
 		"a load that makes a canary marker from outside the allowed set visible is a read violation; acceptance must be the same for save and load, for both attempts and both orders; exec/run must not resolve in restricted modes; image.save with hostile image names must only write ./grol.png. " +
 		"Thorough additionally runs a sample under strace and checks every path opened for writing. non-trivial = request that was accepted; distinct = distinct (configuration, name)."
 }
 func (c17) Exhaustive(string) bool     { return true }
 func (c17) NumBatches(string) int      { return 6 }
-func (c17) CaseTimeout() time.Duration { return 300 * time.Second }
+func (c17) CaseTimeout() time.Duration { return 45 * time.Minute } // one case is one child enumerating every name (thorough: 1.6 million requests)
 func (c17) Assumptions() []string {
 	return []string{"the allowed-set predicate is the monitor's own reading of the property, not the sanitiser under test", "the unrestricted configuration is only a control run (no confinement is promised there)"}
 }
